@@ -80,3 +80,16 @@ def sortNames (ll : List String) : Except SErr (List String) :=
   then .ok (stage2 (stage1 ll)) else fallback ll
 
 end PV.Names
+
+namespace PV.Names
+
+/-- how the replica-file readers (read_rwms, the gradient-flow readers; since fix 74a17bd) put an observable together: every file
+    contributes (name derived from the file name, its data); the `Obs` constructor then sorts chains by name, data attached -/
+def assembleByFile {δ : Type} (nameOf : String → String) (files : List (String × δ)) : List (String × δ) :=
+  Py.sortBy (fun a b => decide (a.1 ≤ b.1)) (files.map (fun f => (nameOf f.1, f.2)))
+
+/-- the assembly before the fix: the names were sorted on their own and then zipped with the data in file order -/
+def assembleNamesSortedApart {δ : Type} (nameOf : String → String) (files : List (String × δ)) : List (String × δ) :=
+  List.zip (Py.sortBy (fun a b => decide (a ≤ b)) (files.map (fun f => nameOf f.1))) (files.map (·.2))
+
+end PV.Names
